@@ -6,6 +6,7 @@ package c12
 
 import (
 	"crypto/sha256"
+	"encoding/hex"
 	"fmt"
 	"hash"
 	"io"
@@ -327,15 +328,25 @@ func init() {
 		roots = append(roots, baseFieldRoots("g1", bls12381.NewG1())...)
 		roots = append(roots, baseFieldRoots("g2", bls12381.NewG2())...)
 		// full-curve points of the curves with a cofactor (not promised to be in the subgroup)
-		edc, xc := edwards25519.NewCurve(), curve25519.NewCurve()
-		edf := algebra.StructureMustBeAs[algebra.PrimeField[*edwards25519.Scalar]](edc.ScalarStructure())
+		edg, xg := edwards25519.NewPrimeSubGroup(), curve25519.NewPrimeSubGroup()
+		edf, xf := fieldOf(edg), fieldOf(xg)
 		for _, k := range []int64{0, 1, 2, 9} {
-			ep := edc.Generator().ScalarOp(lx.FE(edf, big.NewInt(k)))
+			ep := edg.Generator().ScalarOp(lx.FE(edf, big.NewInt(k))).AsPoint()
 			roots = append(roots, root{v: ep})
 			if x, err := ep.AffineX(); err == nil {
 				roots = append(roots, root{v: x})
 			}
-			roots = append(roots, root{v: xc.Generator().ScalarOp(lx.FE(algebra.StructureMustBeAs[algebra.PrimeField[*curve25519.Scalar]](xc.ScalarStructure()), big.NewInt(k)))})
+			roots = append(roots, root{v: xg.Generator().ScalarOp(lx.FE(xf, big.NewInt(k))).AsPoint()})
+		}
+		// small-order points of edwards25519 (valid elements of the full curve type)
+		for _, h := range []string{
+			"ecffffffffffffffffffffffffffffffffffffffffffffffffffffffffffff7f", // order 2
+			"0000000000000000000000000000000000000000000000000000000000000000", // order 4
+		} {
+			b, _ := hex.DecodeString(h)
+			if p, err := edwards25519.NewCurve().FromCompressed(b); err == nil {
+				roots = append(roots, root{v: p})
+			}
 		}
 		return roots, nil
 	})
